@@ -408,3 +408,131 @@ def acceptor_line(t, strict):
     return "c11a %d %d %d %d %s %s" % (t.nstart, t.consts.get("non", 5), t.consts.get("fail", 1),
                                        1 if strict else 0, modes_str(t),
                                        " ".join(parts))
+
+
+# ------------------------------------------------------------------ real libcoap clients (c11r)
+
+def gen_client_case(rng):
+    """history for the c11r mode of h_observe: real libcoap clients behind a lossy FIFO network"""
+    nres = rng.choice([1, 2, 3])
+    modes = [rng.choice([0, 0, 0, 1]) for _ in range(3)]
+    nstart = rng.choice([1, 1, 2])
+    ncl = rng.choice([1, 2, 3, 4])
+    ops = []
+    n = rng.choice([8, 14, 22, 34])
+    for _ in range(rng.choice([1, 2, 3])):
+        ops.append("creg:%d:%d:%s" % (rng.randrange(ncl), rng.randrange(nres), rng.choice(["-", "-", "a", "b"])))
+    ops.append("pump")
+    while len(ops) < n:
+        x = rng.random()
+        if x < 0.12:
+            ops.append("creg:%d:%d:%s" % (rng.randrange(ncl), rng.randrange(nres), rng.choice(["-", "a", "b"])))
+        elif x < 0.42:
+            ops.append("chg:%d:%d" % (rng.randrange(nres), rng.choice([1, 1, 2, 5])))
+            ops.append("io")
+        elif x < 0.66:
+            ops.append("pump" if rng.random() < 0.6 else "pump:%d" % rng.choice([1, 2, 3, 5, 0x11, 0xff, rng.randrange(1 << 16)]))
+        elif x < 0.74:
+            ops.append("ccan:%d:%d:%s" % (rng.randrange(ncl), rng.randrange(nres), rng.choice(["-", "a", "b"])))
+        elif x < 0.80:
+            ops.append("cfgt:%d:%d:%s" % (rng.randrange(ncl), rng.randrange(nres), rng.choice(["-", "a", "b"])))
+        elif x < 0.90:
+            ops.append("adv:%d" % rng.choice([100, 2500, 5000, 20000]))
+        elif x < 0.93:
+            ops.append("err:%d:%d" % (rng.randrange(nres), rng.choice([0, 132])))
+        elif x < 0.96:
+            ops.append("lost:%d" % rng.randrange(ncl))
+        elif x < 0.98:
+            ops.append("del:%d" % rng.randrange(nres))
+        else:
+            ops.append("io")
+    return "c11r %d %d %d %d %d %d %s" % (nres, modes[0], modes[1], modes[2], nstart, ncl, " ".join(ops))
+
+
+def serial_lt(a, b):
+    """RFC 7641 order on 24-bit Observe values: a is older than b"""
+    d = (b - a) % (1 << 24)
+    return 0 < d < (1 << 23)
+
+
+def judge_client(case, trace):
+    """implementation-only oracle for a c11r trace -> (ok, what, stats)"""
+    toks = trace.split()
+    if not toks or toks[0] != "K":
+        return False, "no trace: " + trace[:100], {}
+    handler = {}          # (c, tok) -> list of (obs, state, res) since the last server-side add
+    deleted = set()       # (c, tok) currently deleted at the server (after Z, before A)
+    nH = nX = 0
+    i = 1
+    while i < len(toks) and toks[i] != "|":
+        tk = toks[i]
+        i += 1
+        if tk[0] == "A" and ":" in tk:
+            c, tok = tk[1:].split(":")
+            deleted.discard((c, tok))
+            handler[(c, tok)] = []
+        elif tk[0] == "Z" and ":" in tk:
+            c, tok = tk[1:].split(":")
+            deleted.add((c, tok))
+        elif tk[0] == "X":
+            f = tk[1:].split(":")
+            if len(f) >= 9 and f[2] == "n":
+                nX += 1
+                # (an error-class response is sent right after the observer was deleted: allowed)
+                if (f[1], f[6]) in deleted and (int(f[4]) >> 5) == 2:
+                    return False, "notification %s to an observer the server had deleted" % tk, {}
+        elif tk[0] == "H":
+            f = tk[1:].split(":")
+            nH += 1
+            if len(f) >= 5 and f[2] != "-" and int(f[3]) == 69 and f[4] != "-":
+                body = bytes.fromhex(f[4]).decode("latin-1")
+                m = re.match(r"(\d+)\.(\d+)$", body)
+                if not m:
+                    return False, "client got an unreadable body " + tk, {}
+                handler.setdefault((f[0], f[1]), []).append((int(f[2]), int(m.group(2)), int(m.group(1))))
+    # Observe order = order of the application states, for every pair of one registration
+    for key, seq in handler.items():
+        for a in range(len(seq)):
+            for b in range(a + 1, len(seq)):
+                oa, sa, _ = seq[a]
+                ob, sb, _ = seq[b]
+                if oa == ob and sa != sb:
+                    return False, "observer %s: Observe %d carries two different states (%d, %d)" % (key, oa, sa, sb), {}
+                if serial_lt(oa, ob) and not sa <= sb:
+                    return False, "observer %s: Observe %d < %d but state %d > %d" % (key, oa, ob, sa, sb), {}
+                if serial_lt(ob, oa) and not sb <= sa:
+                    return False, "observer %s: Observe %d < %d but state %d > %d" % (key, ob, oa, sb, sa), {}
+    # end of the history (loss-free closing phase): server list vs client knowledge
+    rest = toks[i + 1:]
+    state = {}
+    listed = set()
+    obs_state = {}
+    for tk in rest:
+        m = re.match(r"R(\d+)=(\d+):(.*)$", tk)
+        if m:
+            state[int(m.group(1))] = int(m.group(2))
+            if m.group(3) != "-":
+                for it in m.group(3).split(","):
+                    c, tok = it.split(".")
+                    listed.add((c, tok, int(m.group(1))))
+        elif tk[0] == "O":
+            c, r, q, tok, st = tk[1:].split(":")
+            obs_state[(c, tok)] = (int(r), st)
+    for (c, tok, r) in listed:
+        st = obs_state.get((c, tok))
+        if st is None:
+            continue
+        if st[1] in "cf":
+            return False, ("observation (client %s token %s) was %s by the client but is still registered "
+                           "after the loss-free closing phase" % (c, tok, "cancelled" if st[1] == "c" else "reset")), {}
+        seq = handler.get((c, tok), [])
+        if not seq:
+            return False, "registered observer (client %s token %s) never heard anything" % (c, tok), {}
+        newest = seq[0]
+        for e in seq[1:]:
+            if serial_lt(newest[0], e[0]):
+                newest = e
+        if newest[1] != state.get(r):
+            return False, ("registered observer (client %s token %s): newest state heard %d, resource is at %d "
+                           "after the loss-free closing phase" % (c, tok, newest[1], state.get(r, -1))), {}
+    return True, "", {"handler_calls": nH, "notifications": nX, "registered_at_end": len(listed)}
